@@ -1300,7 +1300,7 @@ class Element(Mapping[str, Attribute]):
             enc_name = match.group(1)
             if enc_name == b'sfm':
                 enc_name = b'binary'
-            unicode = False
+            # There is no unicode marker here, use whatever the caller said.
             enc_vers = 0
             fmt_name = ''
             fmt_vers = 0
